@@ -26,6 +26,13 @@ svalue_t const0, const1, const0u;
           { sp -= n; set_error_state(ES_STACK_FULL); error("***Stack overflow!"); } \
         } while (0)
 
+/* for the push_refed_*() family: the caller hands over its reference, drop it when the value cannot be pushed */
+#define CHECK_AND_PUSH_OR(release)	do {\
+        if (sp + 1 >= end_of_stack) \
+          { release; set_error_state(ES_STACK_FULL); error("***Stack overflow!"); } \
+        sp++; \
+        } while (0)
+
 /**
  * Reset the virtual stack machine.
  */
@@ -140,8 +147,8 @@ void transfer_push_some_svalues (svalue_t * v, int num) {
 void
 push_array (array_t * v)
 {
+  CHECK_AND_PUSH(1);
   v->ref++;
-  sp++;
   sp->type = T_ARRAY;
   sp->u.arr = v;
 }
@@ -149,7 +156,7 @@ push_array (array_t * v)
 void
 push_refed_array (array_t * v)
 {
-  sp++;
+  CHECK_AND_PUSH_OR (free_array (v));
   sp->type = T_ARRAY;
   sp->u.arr = v;
 }
@@ -157,8 +164,8 @@ push_refed_array (array_t * v)
 void
 push_buffer (buffer_t * b)
 {
+  CHECK_AND_PUSH(1);
   b->ref++;
-  sp++;
   sp->type = T_BUFFER;
   sp->u.buf = b;
 }
@@ -166,7 +173,7 @@ push_buffer (buffer_t * b)
 void
 push_refed_buffer (buffer_t * b)
 {
-  sp++;
+  CHECK_AND_PUSH_OR (free_buffer (b));
   sp->type = T_BUFFER;
   sp->u.buf = b;
 }
@@ -177,8 +184,8 @@ push_refed_buffer (buffer_t * b)
 void
 push_mapping (mapping_t * m)
 {
+  CHECK_AND_PUSH(1);
   m->ref++;
-  sp++;
   sp->type = T_MAPPING;
   sp->u.map = m;
 }
@@ -186,7 +193,7 @@ push_mapping (mapping_t * m)
 void
 push_refed_mapping (mapping_t * m)
 {
-  sp++;
+  CHECK_AND_PUSH_OR (free_mapping (m));
   sp->type = T_MAPPING;
   sp->u.map = m;
 }
@@ -197,8 +204,8 @@ push_refed_mapping (mapping_t * m)
 void
 push_class (array_t * v)
 {
+  CHECK_AND_PUSH(1);
   v->ref++;
-  sp++;
   sp->type = T_CLASS;
   sp->u.arr = v;
 }
@@ -206,7 +213,7 @@ push_class (array_t * v)
 void
 push_refed_class (array_t * v)
 {
-  sp++;
+  CHECK_AND_PUSH_OR (free_class (v));
   sp->type = T_CLASS;
   sp->u.arr = v;
 }
@@ -217,7 +224,7 @@ push_refed_class (array_t * v)
 void
 push_malloced_string (char *p)
 {
-  sp++;
+  CHECK_AND_PUSH_OR (FREE_MSTR (p));
   sp->type = T_STRING;
   sp->u.string = p;
   sp->subtype = STRING_MALLOC;
@@ -230,7 +237,7 @@ push_malloced_string (char *p)
 void
 push_shared_string (char *p)
 {
-  sp++;
+  CHECK_AND_PUSH(1);
   sp->type = T_STRING;
   sp->u.string = p;
   sp->subtype = STRING_SHARED;
